@@ -23,6 +23,7 @@ MODS = {
     "ffim": ("parser/src/ffi.rs", "ffim_h.rs", "ffi::verif_ffim::"),
     "pvalid": ("parser/src/earley/parser.rs", "pvalid_h.rs", "earley::parser::verif_valid::"),
     "pspec": ("parser/src/earley/parser.rs", "pspec_h.rs", "earley::parser::verif_spec::"),
+    "pforce": ("parser/src/earley/parser.rs", "pforce_h.rs", "earley::parser::verif_force::"),
     "cproto": ("parser/src/constraint.rs", "cproto_h.rs", "constraint::verif_proto::"),
 }
 
@@ -71,6 +72,7 @@ HARNESSES = {
                    c11_fail=["p11_witness_must_fail"]),
     "mproto": dict(c18=["p18m_error_is_sticky", "p18m_consume_n1", "p18m_consume_n3", "p18m_after_stop", "p01m_try_consume_n2", "p01m_try_consume_n3"],
                    c18_fail=["mproto_witness_must_fail"]),
+    "pforce": dict(c12=["p12f_c_f_rb1_c_f", "p12f_c_c_f_rb2_c", "p12f_c_f_rb1_f_none"], c12_fail=["p12f_witness_must_fail"]),
     "pspec": dict(c11=["p11s_speculation_base0", "p11s_speculation_base2"], c11_fail=["p11s_witness_must_fail"]),
     "pvalid": dict(c01=["p01v_validate_t1_f0", "p01v_validate_t2_f0", "p01v_validate_t2_f1", "p01v_validate_t2_f2", "p01v_validate_t3_f1"],
                    c01_fail=["p01v_witness_must_fail"]),
@@ -78,7 +80,7 @@ HARNESSES = {
                       "k17_4_mask_v33_d3", "k17_4_mask_v32_d1", "k17_4_mask_v31_d1", "k17_4_status"], c17_fail=["k17_4_witness_must_fail"]),
     "cproto": dict(c18=["p18c_compute_mask", "p18c_after_stop", "p18c_commit"], c18_fail=["cproto_witness_must_fail"]),
     "tpproto": dict(c12=["p12_rollback_n0_k1", "p12_rollback_n1_k1", "p12_rollback_n0_k2", "p12_rollback_n1_k2", "p12_refuse_n1", "p12_refuse_n2"],
-                    c18=["p18_stopped_is_final", "p18_check_stop_exact", "p18_eos_not_accepting", "p18_mask_protocol",
+                    c18=["p18_stopped_is_final", "p18_check_stop_exact", "p18_eos_not_accepting", "p18_pending_forced_text_is_not_accepting", "p18_mask_protocol",
                          "p18_out_of_range_token_fails_for_good", "p18_budget"],
                     c01=["p01_commit_accounting"], c13=["p13_prefix_pl1", "p13_prefix_pl2"],
                     proto_fail=["tpproto_witness_must_fail"]),
@@ -107,6 +109,16 @@ def slice_constraint_fns():
     src = open(os.path.join(REPO, "parser/src/constraint.rs")).read()
     fns = [fnslice.extract_fn(src, n, within="impl Constraint {") for n in CONSTRAINT_FNS]
     return fnslice.impl_block("impl Constraint", fns)
+
+
+PFORCE_FNS = ["needs_force_bytes", "force_bytes", "with_items_limit", "rollback", "has_pending_lexeme_bytes", "lexer_state", "num_rows",
+              "assert_definitive_inner", "assert_definitive", "check_lexer_bytes_invariant"]
+
+
+def slice_pforce_fns():
+    src = open(os.path.join(REPO, "parser/src/earley/parser.rs")).read()
+    fns = [fnslice.extract_fn(src, n, within="impl ParserState {") for n in PFORCE_FNS]
+    return fnslice.impl_block("impl MockPS", fns)
 
 
 PSPEC_FNS = ["run_speculative", "trie_started_inner", "trie_finished_inner", "pop_lexer_states", "lexer_state", "num_rows",
@@ -367,6 +379,8 @@ def prepare(tag, mods):
             ov.write("parser/src/verif_matcher_fns.rs", slice_matcher_fns())
         if "cproto" in mods:
             ov.write("parser/src/verif_constraint_fns.rs", slice_constraint_fns())
+        if "pforce" in mods:
+            ov.write("parser/src/earley/verif_pforce_fns.rs", slice_pforce_fns())
         if "pspec" in mods:
             ov.write("parser/src/earley/verif_pspec_fns.rs", slice_pspec_fns())
         if "pvalid" in mods:
